@@ -23,9 +23,11 @@ def run(ctx: Ctx):
                        "written Confidence has 2 decimals: it must be within half a unit of the exact maximum"]
     # swapped / dup: two parts on one reference and strand whose join is refused; flankdup: two second-pass fragments of
     # one query with exactly equal confidence; inversion: the two passes on opposite strands
-    res, lines, out = file_common.explore(ctx, 24 if quick else 240, salt=5, n_qry=15,
+    # outscored: the second pass finds a better alignment than the first (every other label missing in the larger part)
+    res, lines, out = file_common.explore(ctx, 24 if quick else 240, salt=5, n_qry=16,
                                           kinds=["split", "noisy", "swapped", "dropped", "indel", "chimeric", "mirror", "partial",
-                                                 "junk", "flankdup", "exact", "dup", "tiny", "stretched", "inversion"])
+                                                 "junk", "flankdup", "exact", "dup", "tiny", "stretched", "inversion",
+                                                 "outscored"])
     seeds = []
     for rr, ln in zip(res, lines):
         if ln is None:
